@@ -23,3 +23,41 @@ def outcome_class(c, obs):
 
 def classify(c, obs, why):
     return None
+
+
+def run(res, a):
+    """the generic correspondence, then (implementation side, judged by the oracle of the C20 histories) runs in which the setup
+    code is changed between two starts on the same storage: the code of an EARLIER run proves nothing"""
+    import json, os, sys
+    from .. import core
+    from . import c20
+    mod = sys.modules[__name__]
+    res.rule = RULE + "; additionally (implementation side): pair-setup with the previous and with the current setup code after the code was changed between two runs on one storage"
+    res.assumptions = list(ASSUMPTIONS)
+    core.build_everything(res, ID, extra_files=EXTRA_FILES)
+    res.trusted += TRUSTED
+    rng = core.rng_for(ID, res.seed)
+    if a.replay:
+        rep = json.load(open(a.replay))
+        if not rep["case"].startswith("hist "):
+            core.run_correspondence(res, FAMILY, [{"id": "replay", "line": rep["case"], "kind": "replay", "meta": rep.get("meta") or {}}], mod)
+            return
+        cases = [{"id": "replay", "line": rep["case"], "kind": "hist/pin-changed"}]
+    else:
+        core.run_correspondence(res, FAMILY, core.load_corpus(FAMILY) + gen(rng, a.tier), mod)
+        cases = c20.pin_changed(rng, a.tier)
+    obs = core.shard_run(os.path.join(core.BUILD, "hcdrv"), "config", ["%s %s" % (c["id"], c["line"]) for c in cases])
+    bad = 0
+    for c in cases:
+        o = obs.get(c["id"], "NO-OUTPUT")
+        res.cases += 1
+        h = core.sha(c["line"])
+        res.distinct.add(h)
+        res.nontrivial.add(h)
+        res.count("kind:setup-code-changed")
+        why = c20.oracle_hist(c, o)
+        if why:
+            bad += 1
+            res.violations.append(("setup-code-changed", {"property": ID, "family": "config", "seed": res.seed, "case": c["line"], "implementation_observed": o[:400],
+                                                          "required": why, "failing_input_found": True, "replay": "python3 tools/check.py C02 --replay <this file>"}))
+    res.obligations.append(("implementation-side runs: the setup code changed between two runs on one storage", bad == 0, "%d runs, %d failing" % (len(cases), bad)))
